@@ -351,6 +351,9 @@ fn c15_for<S: AnyScan>(cfg: &Cfg, rep: &mut Report, timeouts: &[u64]) {
     let vp = crate::util::value_pairs(cfg, 0xC15, 7);
     for &t in timeouts {
         for (pi, &(a, b)) in pairs.iter().enumerate() {
+            if rep.own_violations(&cfg.prop) >= 20 {
+                break; // already violated; skip the remaining pairs
+            }
             let alpha = S::alphabet(&[a, b], rich, &vp[pi % vp.len()]);
             let (st, _) = explore(cfg, Iso::<S>::new(t, [a, b]), &alpha, if rich { 400_000 } else { 25_000 }, rep, false);
             tot_states += st.states;
